@@ -1,6 +1,8 @@
 package main
 
 import (
+	"sort"
+	"go/types"
 	"fmt"
 	"go/token"
 	"hash/fnv"
@@ -72,6 +74,18 @@ func (o *omap[K, V]) get(k K) (V, bool) {
 }
 
 func (o *omap[K, V]) set(k K, v V) { o.m[k] = v }
+
+// keysWithPrefix lists the live string keys that start with prefix (only meaningful for string-keyed maps).
+func (o *omap[K, V]) keysWithPrefix(prefix string) []string {
+	var out []string
+	o.each(func(k K, _ V) {
+		if ks, ok := any(k).(string); ok && strings.HasPrefix(ks, prefix) {
+			out = append(out, ks)
+		}
+	})
+	sort.Strings(out)
+	return out
+}
 
 func (o *omap[K, V]) child() *omap[K, V] {
 	if o.depth > 64 {
@@ -377,6 +391,14 @@ func enumPathsOpts(fn *ssa.Function, limit, maxVisits int, opts InlineOpts) (pat
 			case *ssa.Store:
 				k, v := s.term(x.Addr), s.term(x.Val)
 				s.mem.set(k, v)
+				// a struct copied as a whole carries what is known about its fields
+				if _, isStruct := x.Val.Type().Underlying().(*types.Struct); isStruct && strings.HasPrefix(v, "local:") && k != v {
+					for _, fk := range s.mem.keysWithPrefix(v + ".") {
+						if fv, ok := s.mem.get(fk); ok {
+							s.mem.set(any(k+fk[len(v):]).(string), fv)
+						}
+					}
+				}
 				s.path.Events = append(s.path.Events, Event{"store", k + " := " + v, ins})
 			case *ssa.MapUpdate:
 				s.path.Events = append(s.path.Events, Event{"mapupdate", s.term(x.Map) + "[" + s.term(x.Key) + "] = " + s.term(x.Value), ins})
@@ -698,18 +720,34 @@ func decisionTable(fn *ssa.Function, atoms map[string]string, resultIdx int, wan
 			return []string{"panic exit"}, false
 		}
 		ret := hit.Ret[resultIdx]
-		var got bool
-		switch ret {
-		case "true":
-			got = true
-		case "false":
-			got = false
-		default:
-			nm, pol, ok := atomOf(ret)
-			if !ok {
-				return []string{"unrecognised result " + ret}, false
+		// the result: a constant, an atom, or a boolean combination of those (x != y, x == y, !x)
+		var eval func(t string) (bool, bool)
+		eval = func(t string) (bool, bool) {
+			switch t {
+			case "true":
+				return true, true
+			case "false":
+				return false, true
 			}
-			got = a[nm] == pol
+			if nm, pol, ok := atomOf(t); ok {
+				return a[nm] == pol, true
+			}
+			if strings.HasPrefix(t, "!") {
+				v, ok := eval(t[1:])
+				return !v, ok
+			}
+			if l, op, rr, ok := splitTop(t); ok && (op == "!=" || op == "==") {
+				lv, lok := eval(l)
+				rv, rok := eval(rr)
+				if lok && rok {
+					return (lv == rv) == (op == "=="), true
+				}
+			}
+			return false, false
+		}
+		got, ok := eval(ret)
+		if !ok {
+			return []string{"unrecognised result " + ret}, false
 		}
 		if got != want(a) {
 			mismatch = append(mismatch, fmt.Sprintf("for %s the function yields %v, the specification %v", fmtAssign(a, names), got, want(a)))
@@ -774,6 +812,9 @@ func (p *Path) holds(c string) bool {
 // by the function literal lit (index = free variable number).
 func closureBindings(lit *ssa.Function) []string {
 	if mc, ok := boundSite[lit]; ok {
+		if cb := carrierBindings(mc); cb != nil {
+			return cb // a carrier struct: its fields are what a literal would have captured
+		}
 		return []string{describe(mc.Bindings[0])} // the receiver of a method value is what a literal would have captured
 	}
 	parent := lit.Parent()
